@@ -65,6 +65,8 @@ type Ctx struct {
 	R                *rand.Rand
 	Dir              string // private scratch directory of the case (removed afterwards)
 	Verbose          bool
+	// OnPanic, when set, supplies the history for a violation raised by a panic in repo code.
+	OnPanic func() any
 
 	mu      sync.Mutex
 	res     CaseResult
@@ -210,7 +212,11 @@ func runCase(p *Prop, seed int64, tier string, index int, scratch string, verbos
 						HarnessBug("case %s/%s #%d panicked in harness code: %v\n%s", p.ID, p.Part, index, r, st)
 					}
 					c.mu.Lock()
-					c.res.Violations = append(c.res.Violations, Violation{Kind: "panic", Detail: fmt.Sprintf("%v", r), Witness: trimStack(st)})
+					var wit any = trimStack(st)
+					if c.OnPanic != nil {
+						wit = map[string]any{"stack": trimStack(st), "history": c.OnPanic()}
+					}
+					c.res.Violations = append(c.res.Violations, Violation{Kind: "panic", Detail: fmt.Sprintf("%v", r), Witness: wit})
 					c.mu.Unlock()
 				}
 			}
